@@ -34,14 +34,16 @@ func (w *world) setup(o *hx.Out, k int) {
 		c := walletContract(val, fmt.Sprintf("W%d", i))
 		tx := w.e.NewDeployTxBy(w.t, w.valSigner, c, nil)
 		specs = append(specs, w.rawSpec(tx.Script, tx.SystemFee, val))
-		w.wallets = append(w.wallets, c.Hash)
-		w.aid(c.Hash)
+		if w.wallets[i] != c.Hash {
+			panic("wallet contract hash")
+		}
 	}
 	np := nopayContract(val, "NoPay")
 	tx := w.e.NewDeployTxBy(w.t, w.valSigner, np, nil)
 	specs = append(specs, w.rawSpec(tx.Script, tx.SystemFee, val))
-	w.nopay = np.Hash
-	w.aid(np.Hash)
+	if w.nopay != np.Hash {
+		panic("nopay contract hash")
+	}
 	// designate the notary node (committee = standby committee at this height)
 	bw := io.NewBufBinWriter()
 	var nks []any
@@ -157,7 +159,14 @@ func (w *world) anyAccount() util.Uint160 {
 
 func (g *genCtx) amount(bal *big.Int, neo bool) *big.Int {
 	r := g.w.r
-	switch r.Weighted([]int{8, 10, 10, 6, 3, 63}) {
+	switch r.Weighted([]int{8, 10, 10, 6, 3, 63, 1}) {
+	case 6:
+		// the ends of the VM integer range: 2^255-1 (overdraft) and -2^255 (negative amount: panic)
+		x := new(big.Int).Lsh(big.NewInt(1), 255)
+		if r.Bool() {
+			return x.Neg(x)
+		}
+		return x.Sub(x, big.NewInt(1))
 	case 0:
 		return big.NewInt(0)
 	case 1:
